@@ -71,7 +71,7 @@ class C05(SessionProp):
         "directions) with one node corrupted (identifier edits, length edits incl. 0x80/long forms, zero-length "
         "primitives, content edits producing invalid UTF-8, truncation, spliced nesting bombs of depth 5..1500), whole "
         "or in random chunks, followed by one more delivery after a failure; plus intact streams of 2-4 responses of arbitrary "
-        "kinds reusing the ids of the client's operations in progress; non-trivial = corrupted or chunked input"
+        "kinds reusing the ids of the client's operations in progress; plus intact notices of disconnection with 1-3 KiB of 1-4 byte characters as diagnostic text, to both roles; non-trivial = corrupted or chunked input"
     )
 
     def corpus(self):
@@ -114,6 +114,13 @@ class C05(SessionProp):
         else:
             if r < 0.5:
                 pre.append([RECV, msgs.pack([1, msgs.g_op(rng, rng.choice([0, 3, 7]), depth=0), []])])
+        if rng.random() < 0.04:
+            # a well-formed notice of disconnection (or other response) addressed to either role whose text is long
+            # and not ASCII: error texts that quote the peer must survive any limit applied to them
+            m = [rng.choice([0, 0, 1]), [8, [rng.choice([2, 8, 52, 80]), b"", msgs.g_long_text(rng), []], [msgs.OID_NOTICE] if rng.random() < 0.8 else [], []], []]
+            data = msgs.pack(m)
+            chunks = [data] if rng.random() < 0.6 else chunkings(rng, data)
+            return {"role": role, "pre": pre, "chunks": chunks, "calls": pre + [[RECV, c] for c in chunks] + [[RECV, b"\x30"]], "meta": None, "mut": 0}
         k = rng.randint(1, 3)
         ms = []
         # family "well-formed but unexpected": several intact responses (any response kind) reusing the ids
